@@ -354,7 +354,9 @@ impl Disk
                     }
                     let lx_lower_bound = (curr_lx_count - 1) & (usize::MAX ^ self.dpb.exm as usize);
                     if lx_lower_bound < prev_lx_count {
-                        panic!("unreachable: extents were not sorted");
+                        // two directory entries claim logical extents of the same group (corrupted directory)
+                        error!("overlapping extent indices");
+                        return Err(Box::new(Error::BadFormat));
                     }
                     block_count += (lx_lower_bound - prev_lx_count) * LOGICAL_EXTENT_SIZE / self.dpb.block_size();
                     // Get the data
